@@ -65,12 +65,14 @@ func (ex *Exec) chanEvent(kind int, ch *Term, v Val) *Term {
 	return ex.mkEvent(kind, ch, str, i, o2)
 }
 
-// emit appends a ghost event to the trace.
-func (ex *Exec) emit(ev *Term) {
-	tr := ex.getHeap(ex.cur, "$tr", ArrS(SInt, SEvent))
-	n := ex.getHeap(ex.cur, "$trlen", SInt)
-	ex.setHeap(ex.cur, "$tr", ex.named("$tr", Store(tr, n, ev)))
-	ex.setHeap(ex.cur, "$trlen", ex.named("$trlen", Add(n, IntLit(1))))
+// emit appends a ghost event to the main trace.
+func (ex *Exec) emit(ev *Term) { ex.emitTo("$tr", ev) }
+
+func (ex *Exec) emitTo(trace string, ev *Term) {
+	tr := ex.getHeap(ex.cur, trace, ArrS(SInt, SEvent))
+	n := ex.getHeap(ex.cur, trace+"len", SInt)
+	ex.setHeap(ex.cur, trace, ex.named(trace, Store(tr, n, ev)))
+	ex.setHeap(ex.cur, trace+"len", ex.named(trace+"len", Add(n, IntLit(1))))
 }
 
 // ---------------------------------------------------------------------------
@@ -242,6 +244,13 @@ func (ex *Exec) callWith(c *ssa.CallCommon, instr ssa.Instruction, pos token.Pos
 		return ex.callBuiltin(b, c, args, pos)
 	}
 	rt := ex.resultType(c)
+	if fn := c.StaticCallee(); fn != nil && fn.Pkg != nil && strings.HasSuffix(fn.Pkg.Pkg.Path(), "goirc/logging") {
+		switch fn.Name() {
+		case "Debug", "Info", "Warn", "Error":
+			ex.logCall(c, args)
+			return Val{Ty: rt}
+		}
+	}
 	spec, info := ex.V.contractFor(ex, c)
 	if spec == nil {
 		ex.fail("call to %s without a contract (%s)", info.key, ex.posOf(pos))
@@ -288,6 +297,17 @@ func (ex *Exec) calleeEnv(spec *FuncSpec, info calleeInfo, args []Val, st, old *
 	return env
 }
 
+// calleeGhosts binds the callee's ghost outputs (bind / ghost clauses) to
+// fresh values: for the caller they are existentially quantified.
+func (ex *Exec) calleeGhosts(spec *FuncSpec, info calleeInfo, env *Env) {
+	for _, cl := range spec.Clauses {
+		if cl.Kind == "bind" || (cl.Kind == "ghost" && cl.Expr == nil) {
+			t := ex.V.specType(cl.Type, info.pkg)
+			env.vars[cl.Name] = ex.freshVal("cg."+cl.Name, t)
+		}
+	}
+}
+
 func (ex *Exec) checkCallPre(spec *FuncSpec, info calleeInfo, c *ssa.CallCommon, args []Val, pos token.Pos) {
 	env := ex.calleeEnv(spec, info, args, ex.cur, ex.cur)
 	for _, cl := range spec.Clauses {
@@ -322,6 +342,7 @@ func (ex *Exec) applyContract(spec *FuncSpec, info calleeInfo, c *ssa.CallCommon
 	res := ex.freshVal("ret."+shortKey(info.key), rt)
 	// modifies
 	env := ex.calleeEnv(spec, info, args, pre, pre)
+	ex.calleeGhosts(spec, info, env)
 	ex.bindResults(env, spec, info, res, rt)
 	for _, cl := range spec.Clauses {
 		if cl.Kind == "let" {
@@ -344,6 +365,28 @@ func (ex *Exec) applyContract(spec *FuncSpec, info calleeInfo, c *ssa.CallCommon
 	}
 	// results are allocated in the post state
 	ex.allocatedDeep(res, rt, post)
+	// ghost bindings of the function under verification: "bind g := call K n"
+	ex.callCount[info.key]++
+	if ex.spec != nil {
+		for _, cl := range ex.spec.Clauses {
+			if cl.Kind == "bind" && cl.Text == fmt.Sprintf("%s %d", info.key, ex.callCount[info.key]) {
+				v := res
+				if len(v.Fs) > 0 {
+					v = v.Fs[0]
+				}
+				t := ex.V.specType(cl.Type, ex.pkg)
+				v.Ty = t
+				// on paths that do not execute the call the ghost keeps its (arbitrary) initial value
+				if old, ok := ex.ghosts[cl.Name]; ok && old.T != nil && v.T != nil && ex.pc != True {
+					c := ex.D.Fresh("g."+cl.Name, v.T.S)
+					ex.assume(Eq(c, Ite(ex.pc, v.T, old.T)))
+					v.T = c
+				}
+				ex.ghosts[cl.Name] = v
+				ex.ghostTy[cl.Name] = t
+			}
+		}
+	}
 	// ensures
 	penv := ex.calleeEnv(spec, info, args, post, pre)
 	for k, v := range env.vars {
@@ -482,17 +525,19 @@ func (ex *Exec) havocTarget(e SExpr, env *Env, pre, post *State) {
 }
 
 func (ex *Exec) havocGhost(name string, pre, post *State) {
-	switch name {
-	case "$tr":
-		ptr := ex.getHeap(pre, "$tr", ArrS(SInt, SEvent))
-		pn := ex.getHeap(pre, "$trlen", SInt)
-		ntr := ex.D.Fresh("$tr", ArrS(SInt, SEvent))
-		nn := ex.D.Fresh("$trlen", SInt)
+	if ex.V.db.IsTrace(name) {
+		ptr := ex.getHeap(pre, name, ArrS(SInt, SEvent))
+		pn := ex.getHeap(pre, name+"len", SInt)
+		ntr := ex.D.Fresh(name, ArrS(SInt, SEvent))
+		nn := ex.D.Fresh(name+"len", SInt)
 		ex.assume(Ge(nn, pn))
 		k := BV("k!t", SInt)
 		ex.assume(Forall([]BVar{{"k!t", SInt}}, Imp(And(Le(IntLit(0), k), Lt(k, pn)), Eq(Select(ntr, k), Select(ptr, k)))))
-		ex.setHeap(post, "$tr", ntr)
-		ex.setHeap(post, "$trlen", nn)
+		ex.setHeap(post, name, ntr)
+		ex.setHeap(post, name+"len", nn)
+		return
+	}
+	switch name {
 	case "$held", "$wg":
 		ex.getHeap(pre, name, ArrS(SInt, SInt))
 		ex.setHeap(post, name, ex.D.Fresh(name, ArrS(SInt, SInt)))
@@ -509,6 +554,69 @@ func (ex *Exec) havocGhost(name string, pre, post *State) {
 		}
 		ex.getHeap(pre, name, s)
 		ex.setHeap(post, name, ex.D.Fresh(name, s))
+	}
+}
+
+// logCall models a call of the logging package: one "log" event carrying the
+// format string on the $log trace, followed by one "logarg" event per
+// variadic argument (string payloads in estr, integers in eint, anything
+// else as an opaque value in eobj2). The program state is not affected.
+func (ex *Exec) logCall(c *ssa.CallCommon, args []Val) {
+	lvl := IntLit(int64(ex.V.nameID("loglevel:" + c.StaticCallee().Name())))
+	var fm *Term
+	if len(args) > 0 && args[0].T != nil && args[0].T.S == SStr {
+		fm = args[0].T
+	}
+	ex.emitTo("$log", ex.mkEvent(evLog, nil, fm, lvl, nil))
+	if len(c.Args) < 2 {
+		return
+	}
+	sl, ok := c.Args[1].(*ssa.Slice)
+	if !ok {
+		if k, isConst := c.Args[1].(*ssa.Const); isConst && k.Value == nil {
+			return // no variadic arguments
+		}
+		// a slice built elsewhere: contents unknown
+		ex.emitTo("$log", ex.mkEvent(evLogArg, nil, ex.freshVal("logarg", tyStr).T, nil, nil))
+		return
+	}
+	alloc, ok := sl.X.(*ssa.Alloc)
+	if !ok {
+		ex.emitTo("$log", ex.mkEvent(evLogArg, nil, ex.freshVal("logarg", tyStr).T, nil, nil))
+		return
+	}
+	n := alloc.Type().(*types.Pointer).Elem().Underlying().(*types.Array).Len()
+	elems := make([]ssa.Value, n)
+	for _, r := range *alloc.Referrers() {
+		ia, ok := r.(*ssa.IndexAddr)
+		if !ok {
+			continue
+		}
+		k, ok := ia.Index.(*ssa.Const)
+		if !ok {
+			continue
+		}
+		for _, r2 := range *ia.Referrers() {
+			if st, ok := r2.(*ssa.Store); ok && st.Addr == ia {
+				elems[int(k.Int64())] = st.Val
+			}
+		}
+	}
+	for _, e := range elems {
+		var payload Val
+		if mi, ok := e.(*ssa.MakeInterface); ok {
+			payload = ex.val(mi.X)
+		} else if e != nil {
+			payload = ex.val(e)
+		}
+		switch {
+		case payload.T != nil && payload.T.S == SStr:
+			ex.emitTo("$log", ex.mkEvent(evLogArg, nil, payload.T, nil, nil))
+		case payload.T != nil && payload.T.S == SInt:
+			ex.emitTo("$log", ex.mkEvent(evLogArg, nil, nil, payload.T, nil))
+		default:
+			ex.emitTo("$log", ex.mkEvent(evLogArg, nil, nil, nil, IntLit(1)))
+		}
 	}
 }
 
